@@ -27,6 +27,53 @@ EXPLANATION = (
     "spellings or collisions (data dependent).")
 
 
+
+def casei_writers_rule(ck, ix):
+    """The case-insensitive index `_units_casei` is also pint's 'is a defined spelling' test (prefixes only apply to
+    indexed spellings).  Every definition-time writer of the unit table writes the index too, on every path."""
+    n = 0
+    for f in ix.all_functions():
+        if not isinstance(f.node, (ast.FunctionDef, ast.AsyncFunctionDef)):
+            continue
+        for c in walk_local(f.node):
+            if isinstance(c, ast.Call) and call_name(c) in ("_helper_adder", "_helper_single_adder") and dotted(c.func.value) == "self":
+                args = [norm(a) for a in c.args]
+                tbl, casei = args[-2], args[-1]
+                if f.name in ("_helper_adder",):
+                    ok = tbl == "target_dict" and casei == "casei_target_dict"
+                    ck.check(ok, "G-MEMO-FILL", f"casei-index|{f.name}-forwards-both-tables", f.loc(c), "forwards table and index", f"`{norm(c)}` does not forward both tables")
+                    continue
+                n += 1
+                if tbl == "self._units":
+                    ck.check(casei == "self._units_casei", "G-MEMO-FILL", f"casei-index|writer={f.qualname.split('::')[1]}", f.loc(c), "unit table and case-insensitive index written together",
+                             f"`{norm(c)}` stores a unit spelling without entering it into _units_casei: case-insensitive lookups miss it (and prefixes no longer apply to it)")
+                else:
+                    ck.check(casei == "None", "G-MEMO-FILL", f"casei-index|non-unit-table|writer={f.qualname.split('::')[1]}", f.loc(c), "other tables have no case-insensitive index", f"`{norm(c)}` indexes a non-unit table in _units_casei")
+    ck.floor("G-MEMO-FILL", n, 3, "adder calls")
+    fi = ix.func(PR, "GenericPlainRegistry._helper_single_adder")
+    ck.check("casei_target_dict[key.lower()].add(key)" in norm(fi.node), "G-MEMO-FILL", "casei-index|lowercased-key-maps-to-spelling", fi.loc(), "index maps lower-cased spelling to the spelling", "the case-insensitive index is no longer filled with key.lower() -> key")
+    ck.analysed(fi)
+    cfg = cfg_of(fi)
+    stores, adds = [], []
+    for (p, k, nd) in writes_in(fi.node):
+        if p == "target_dict" and k == "item-store":
+            stores += cfg.nodes_for_ast(nd)
+        if p.startswith("casei_target_dict"):
+            adds += cfg.nodes_for_ast(nd)
+    none_edges = []
+    for n in cfg.nodes:
+        if n.kind == "test" and norm(n.ast) in ("casei_target_dict is not None", "casei_target_dict"):
+            none_edges.append((n.id, "f"))
+        if n.kind == "test" and norm(n.ast) in ("casei_target_dict is None", "not casei_target_dict"):
+            none_edges.append((n.id, "t"))
+    ck.check(bool(stores) and bool(adds), "G-MEMO-FILL", "casei-index|single-adder-writes-both", fi.loc(), "the adder writes table and index", "_helper_single_adder no longer writes both the table and the index")
+    for s_ in live(cfg, stores):
+        p1 = cfg.path(cfg.entry, [s_], avoid=adds, avoid_edges=none_edges)
+        p2 = cfg.path(s_, [cfg.exit], avoid=adds, avoid_edges=none_edges) if p1 else None
+        ck.check(not (p1 and p2), "G-MEMO-FILL", "casei-index|indexed-on-every-storing-path", fi.loc(cfg.nodes[s_].ast), "every path that stores a spelling also indexes it (unless the table has no index)",
+                 "a path stores a spelling in the table without entering it into the case-insensitive index (e.g. when the key already exists because it was registered lazily as a prefixed unit): prefixes and case-insensitive lookups then miss a defined unit",
+                 witness(cfg, (p1 or []) + (p2 or [])[1:]))
+
 def run(ck, ix, tier):
     # ------------------------------------------------------------ get_name
     fi = ix.func(PR, "GenericPlainRegistry.get_name")
@@ -129,28 +176,7 @@ def run(ck, ix, tier):
     ck.check("candidates.pop(('', cp + cu, ''), None)" in src and "if cp:" in src, "G-PROV", "_dedup_candidates|prefixed-reading-preferred", fi.loc(), "the unprefixed twin ('', prefix+unit, '') of a prefixed reading is dropped", "_dedup_candidates no longer drops the unprefixed twin of a prefixed reading")
     ck.check("dict.fromkeys(candidates)" in src and "return tuple(candidates)" in src, "G-PROV", "_dedup_candidates|order-preserving", fi.loc(), "order-preserving deduplication", "candidate order is no longer preserved")
 
-    # ------------------------------------------------------------ case-insensitive index has the same writers as the table
-    n = 0
-    for f in ix.all_functions():
-        if not isinstance(f.node, (ast.FunctionDef, ast.AsyncFunctionDef)):
-            continue
-        for c in walk_local(f.node):
-            if isinstance(c, ast.Call) and call_name(c) in ("_helper_adder", "_helper_single_adder") and dotted(c.func.value) == "self":
-                args = [norm(a) for a in c.args]
-                tbl, casei = args[-2], args[-1]
-                if f.name in ("_helper_adder",):
-                    ok = tbl == "target_dict" and casei == "casei_target_dict"
-                    ck.check(ok, "G-MEMO-FILL", f"casei-index|{f.name}-forwards-both-tables", f.loc(c), "forwards table and index", f"`{norm(c)}` does not forward both tables")
-                    continue
-                n += 1
-                if tbl == "self._units":
-                    ck.check(casei == "self._units_casei", "G-MEMO-FILL", f"casei-index|writer={f.qualname.split('::')[1]}", f.loc(c), "unit table and case-insensitive index written together",
-                             f"`{norm(c)}` stores a unit spelling without entering it into _units_casei: case-insensitive lookups miss it (and prefixes no longer apply to it)")
-                else:
-                    ck.check(casei == "None", "G-MEMO-FILL", f"casei-index|non-unit-table|writer={f.qualname.split('::')[1]}", f.loc(c), "other tables have no case-insensitive index", f"`{norm(c)}` indexes a non-unit table in _units_casei")
-    ck.floor("G-MEMO-FILL", n, 3, "adder calls")
-    fi = ix.func(PR, "GenericPlainRegistry._helper_single_adder")
-    ck.check("casei_target_dict[key.lower()].add(key)" in norm(fi.node), "G-MEMO-FILL", "casei-index|lowercased-key-maps-to-spelling", fi.loc(), "index maps lower-cased spelling to the spelling", "the case-insensitive index is no longer filled with key.lower() -> key")
+    casei_writers_rule(ck, ix)
     fi = ix.func(PR, "GenericPlainRegistry._helper_adder")
     ck.analysed(fi)
     src = norm(fi.node)
